@@ -58,7 +58,7 @@ class CSSMediaRule(cssrule.CSSRuleRules):
         """Return serialized property cssText."""
         return cssutils.ser.do_CSSMediaRule(self)
 
-    def _setCssText(self, cssText):  # noqa: C901
+    def _setCssText(self, cssText):
         """
         :param cssText:
             a parseable string or a tuple of (cssText, dict-of-namespaces)
@@ -81,6 +81,20 @@ class CSSMediaRule(cssrule.CSSRuleRules):
         # media "name"? { cssRules }
         super()._setCssText(cssText)
 
+        oldMedia, oldCssRules = self._media, self._cssRules
+        try:
+            self._parseCssText(cssText)
+        except Exception:
+            # raising mode: a rejected text must not leave half a rule behind
+            self._media = oldMedia
+            self._cssRules = oldCssRules
+            raise
+        if self._cssRules is not oldCssRules:
+            # the replaced rules are not part of this rule anymore
+            for rule in oldCssRules:
+                rule._parent = rule._parentRule = None
+
+    def _parseCssText(self, cssText):  # noqa: C901
         # might be (cssText, namespaces)
         cssText, namespaces = self._splitNamespacesOff(cssText)
 
